@@ -20,6 +20,7 @@ type ReaderPlan struct {
 	WithData  bool   `json:"with_data"`  // deliver the last bytes together with the error
 	ZeroReads bool   `json:"zero_reads"` // sprinkle (0,nil) reads
 	Endless   string `json:"endless"`    // after the document, this line is delivered again and again: the input never ends
+	Once      bool   `json:"once"`       // the reader reports its error once; asked again it reports io.EOF
 }
 
 var noReaderFault = ReaderPlan{FailAt: -1}
@@ -104,6 +105,9 @@ func (r *simReader) Read(p []byte) (int, error) {
 	}
 	if r.pos >= limit {
 		if r.plan.FailAt >= 0 && r.plan.FailAt <= len(r.data) {
+			if r.plan.Once && r.Fired {
+				return 0, io.EOF
+			}
 			r.Fired = true
 			return 0, r.Err
 		}
@@ -305,3 +309,9 @@ func (cb *simCallback) staleNodes() string {
 	}
 	return ""
 }
+
+// flushWriter is the caller's writer with an additional Flush() error method, as a
+// *bufio.Writer has; Flush always succeeds.
+type flushWriter struct{ *simWriter }
+
+func (flushWriter) Flush() error { return nil }
